@@ -112,6 +112,11 @@ class PyUnit:
         if names != [n for n, _ in self.params]:
             raise StaleContract("parameters of %s are %s, contract describes %s" % (self.qualname, names, [n for n, _ in self.params]))
         args = [self.make_arg(ex, st, e, n, k) for n, k in self.params]
+        # objects passed in exist already: their addresses are below the allocation pointer
+        st.heap.alloc = z3.Int("H0.alloc")
+        for a in args:
+            if isinstance(a, PRef):
+                st.path.append(z3.And(a.addr >= 0, a.addr < st.heap.alloc))
         h0 = st.heap
         e.h0 = h0.copy()
         e.h = e.h0
@@ -129,6 +134,7 @@ class PyUnit:
         for kind, s, v in outs:
             e2 = Env(**e.__dict__)
             e2.h = s.heap
+            e2.vars = s.vars            # final locals incl. ghost state (PGhost)
             if kind == "return":
                 e2.result = self.result_term(v)
                 for label, f in self.ensures:
